@@ -568,6 +568,16 @@ def D38(tmp):
     return inside != ["zz_unrelated"], f"directory at the payload file's path now holds {inside}"
 
 
+def D39(tmp):
+    """--align on a payload that itself contains .pad/<n> with n a pad length the creator emits: intact content must verify"""
+    d = os.path.join(tmp, "payload")
+    _mk(d, {".pad/1": b"x", "a": PL - 1})
+    mf = os.path.join(tmp, "m.torrent")
+    _create("TorrentFile", d, mf, piece_length=PL, align=True)
+    r = _recheck(mf, d)
+    return r != 100, f"aligned payload containing .pad/1: recheck of intact content reports {r}"
+
+
 # D27/D28: known findings of rebuild
 def D27(tmp):
     def scatter(d, src):
